@@ -60,13 +60,13 @@ def main(chk, which):
     rng = random.Random(chk.seed + 41)
     single_meshes = ['T4', 'T5', 'T6'] if quick else ['T4', 'T5', 'T6', 'T6b', 'T7']
     pass_meshes = ['T4', 'T5'] if quick else ['T4', 'T5', 'T6']
-    kband = 1 if quick else 2
+    kband = 1
     chk.trusted += ['clang-14 lowering validated per run against g++ -O2 (bitwise, incl. the full refinement pass)', 'irsym incl. libstdc++ red-black tree shim (std::set<edge>) and memory monitors',
                     'polynomial normaliser + z3', 'exact-real reading of doubles']
     chk.assumptions += ['pre-state established by the real constructor + initialize_cell_properties: closed mesh, outward (signed volume > 0), generic position (no zero-area face, no exact ties)',
                         'l_min > 0, l_max = 3 l_min (as the solver constructs the refiner)']
     chk.bounds = {'single operations': 'every edge of %s: split, can_be_merged+merge, swap' % single_meshes,
-                  'refinement pass': 'refine_mesh (swap disabled) on %s with at most %d edge-length tests outside the band per pass (paths with more are cut by the exploration bound); path budget 300' % (pass_meshes, kband),
+                  'refinement pass': 'refine_mesh (swap disabled) on %s with at most %d edge-length tests outside the band per pass (paths with more are cut by the exploration bound); path budget 300%s' % (pass_meshes, kband, '' if quick else '; T6 with 0 tests outside the band (the pass must leave it unchanged)'),
                   'chains': 'pass; compaction; all surviving nodes moved to fresh symbolic positions; pass; compaction (T4%s)' % ('' if quick else ', T5'),
                   'outside': 'arbitrary connectivity, meshes > 7 nodes, more than 2 passes, passes with edge swapping enabled (only the single swap operation is covered), zero-area faces'}
 
@@ -108,7 +108,9 @@ def main(chk, which):
                 break
             if done >= (2 if quick else 6): break
     for name in pass_meshes:
-        jobs.append({'mesh': name, 'op': 3, 'edge': (0, 0), 'swap': 0, 'k': kband})
+        # a second out-of-band edge per pass (k = 2) did not finish within 25 minutes per mesh on 16 cores: the thorough tier keeps k = 1 on T4/T5
+        # and adds T6 with k = 0 (a mesh inside the band: the pass must leave it unchanged)
+        jobs.append({'mesh': name, 'op': 3, 'edge': (0, 0), 'swap': 0, 'k': (0 if name == 'T6' else kband)})
     for name in (['T4'] if quick else ['T4', 'T5']):
         jobs.append({'mesh': name, 'op': 4, 'edge': (0, 0), 'swap': 0, 'k': 1})
 
@@ -193,7 +195,17 @@ def main(chk, which):
         return out
 
     chk.log('%d exploration jobs' % len(jobs))
-    results = par.pmap(work, len(jobs))
+    def work_timed(ji):
+        t_ = time.time()
+        o_ = work(ji)
+        o_['wall'] = time.time() - t_
+        if o_['wall'] > 60:
+            j_ = jobs[ji]
+            print('[%s] job %s op %d edge %r k %d: %.0fs' % (which, j_['mesh'], j_['op'], j_['edge'], j_['k'], o_['wall']), flush=True)
+        return o_
+    results = par.pmap(work_timed, len(jobs))
+    slow = sorted(((r_.get('wall', 0), r_['job']['mesh'], r_['job']['op'], r_['job']['k']) for r_ in results), reverse=True)[:5]
+    chk.note('slowest exploration jobs (s, mesh, operation, band): %r' % ([(round(a), b, c, d) for a, b, c, d in slow],))
     for res in results:
         job = res['job']
         tag = '%s/%s%s' % (job['mesh'], RC.OPS[job['op']], (' edge %d-%d' % job['edge']) if job['op'] < 3 else ((' merge %d-%d split %d-%d' % (job['edge'] + job['edge2'])) if job['op'] in (6, 7) else ' (<=%d out-of-band)' % job['k']))
